@@ -648,5 +648,9 @@ func runExtra(ctx *Ctx, what, id string, ev map[string]interface{}, report func(
 		extraGlobals(ctx, id, ev, report, known)
 	case "registry":
 		extraRegistry(ctx, id, ev, report, known)
+	case "abspure":
+		extraAbsPure(ctx, id, ev, report, known)
+	case "pairs":
+		extraPairs(ctx, id, ev, report, known)
 	}
 }
